@@ -42,4 +42,31 @@ def obligations(tier):
                               tier="quick" if q else "thorough", family="sha%d-padding-chunking" % alg,
                               desc="one-shot and 3-chunk streaming feed the FIPS-padded blocks in order into the (abstract) compression chain",
                               bounds="all message bytes; (len, split a, split b) enumerated: quick boundary lengths x boundary splits; thorough every len 0..2*block+6 x every 2-chunk split + boundary 3-chunk splits"))
+    HU = {256: ["crypto_auth/hmacsha256/auth_hmacsha256.c", "crypto_kdf/hkdf/kdf_hkdf_sha256.c"],
+          512: ["crypto_auth/hmacsha512/auth_hmacsha512.c", "crypto_kdf/hkdf/kdf_hkdf_sha512.c"],
+          512256: ["crypto_auth/hmacsha512/auth_hmacsha512.c", "crypto_auth/hmacsha512256/auth_hmacsha512256.c", "crypto_auth/crypto_auth.c"]}
+    COMMON = ["sodium/utils.c", "crypto_verify/verify.c"]
+    HST = ["ideal_hash.c", "misuse.c", "libc.c", "x86_builtins.c"]
+    for alg in (256, 512, 512256):
+        bs = 64 if alg == 256 else 128
+        for kl in ((0, 32, bs + 1) if tier != "thorough" else (0, 1, 32, bs, bs + 1, bs + 40)):
+            for ml in ((0, 20) if tier != "thorough" else (0, 1, 2, 20, 63, 64, 65, 100)):
+                obs.append(Ob("hmac%d-k%d-m%d" % (alg, kl, ml), "C04/hmac_hkdf.c", units=HU[alg] + COMMON, stubs=HST,
+                              defs={"ALG": alg, "KLEN": kl, "MLEN": ml, "PART": 0}, unwind=330, timeout=900, family="hmac-%d" % alg,
+                              desc="HMAC init/update/final, one-shot and verify == RFC 2104 over idealised SHA-2 (long keys pre-hashed; 512-256 truncation)",
+                              bounds="all key/message/tag bytes; key length in {0,1,32,B,B+1,B+40}, message length enumerated"))
+    for alg in (256, 512):
+        hl = alg // 8
+        for ol in ((0, 1, hl, hl + 1, 2 * hl + 6) if tier != "thorough" else range(0, 3 * hl + 2)):
+            for cl in ((5,) if tier != "thorough" else (0, 5)):
+                obs.append(Ob("hkdf%d-out%d-ctx%d" % (alg, ol, cl), "C04/hmac_hkdf.c", units=HU[alg] + COMMON, stubs=HST,
+                              defs={"ALG": alg, "KLEN": 7, "MLEN": 9, "OUTLEN": ol, "CTXLEN": cl, "PART": 1}, unwind=330, timeout=600,
+                              family="hkdf-%d" % alg, tier="quick" if ol in (0, 1, hl, hl + 1, 2 * hl + 6) else "thorough",
+                              desc="HKDF extract/expand == RFC 5869 (counter-suffixed chain from 1, truncation, out_len > 255*HashLen refused)",
+                              bounds="all salt/ikm/info/prk bytes; out_len enumerated (quick 5 values, thorough 0..3*HashLen+1), info length in {0,5}"))
+    for ol in (0, 15, 16, 32, 64, 65):
+        obs.append(Ob("kdf-blake2b-out%d" % ol, "C04/hmac_hkdf.c", units=["crypto_kdf/blake2b/kdf_blake2b.c", "crypto_kdf/crypto_kdf.c"] + COMMON,
+                      stubs=HST, defs={"ALG": 256, "OUTLEN": ol, "PART": 2}, unwind=330, timeout=600, family="kdf-blake2b",
+                      desc="crypto_kdf_derive_from_key == BLAKE2b(key, salt = LE64(id)||0, personal = ctx||0); lengths outside 16..64 refused",
+                      bounds="all keys/ids/contexts; subkey length in {0,15,16,32,64,65}"))
     return obs
